@@ -22,13 +22,14 @@ Lemma print_frags_ld fs :
   (if second_dot fs then [x2e] else []) ++ print_frags fs = x2e :: print_ld true fs.
 Proof.
   induction fs as [|f fs [IH1 IH2]]; [split; reflexivity|].
-  destruct f as [k|i|star| |ms].
+  destruct f as [k|i|star| |ms|l].
   - cbn [print_frags print_ld second_dot print_frag]. rewrite IH1. destruct (token_ok k); split; reflexivity.
   - cbn [print_frags print_ld second_dot print_frag]. rewrite IH1. split; reflexivity.
   - cbn [print_frags print_ld second_dot print_frag]. rewrite IH1. destruct star; split; reflexivity.
   - cbn [print_frags print_ld second_dot]. split.
     + cbn [List.app]. f_equal. exact IH2.
     + cbn [List.app]. f_equal. f_equal. exact IH2.
+  - cbn [print_frags print_ld second_dot]. rewrite IH1. split; reflexivity.
   - cbn [print_frags print_ld second_dot]. rewrite IH1. split; reflexivity.
 Qed.
 
@@ -38,10 +39,11 @@ Definition ends_token (w : bytes) : Prop := w = [] \/ exists b r, w = b :: r /\ 
 Lemma printed_ends_token fs : ends_token (print_ld false fs).
 Proof.
   destruct fs as [|f fs]; [left; reflexivity|]. right.
-  destruct f as [k|i|star| |ms]; cbn [print_ld print_frag].
+  destruct f as [k|i|star| |ms|l]; cbn [print_ld print_frag].
   - destruct (token_ok k); eexists; eexists; (split; [reflexivity|reflexivity]).
   - eexists; eexists; (split; [reflexivity|reflexivity]).
   - destruct star; eexists; eexists; (split; [reflexivity|reflexivity]).
+  - eexists; eexists; (split; [reflexivity|reflexivity]).
   - eexists; eexists; (split; [reflexivity|reflexivity]).
   - eexists; eexists; (split; [reflexivity|reflexivity]).
 Qed.
@@ -73,10 +75,11 @@ Proof.
 Qed.
 
 Lemma is_digit_not_special d : is_digit d = true ->
-  beqb d x27 = false /\ beqb d x22 = false /\ beqb d x2d = false /\ beqb d x20 = false /\ beqb d x2a = false.
+  beqb d x27 = false /\ beqb d x22 = false /\ beqb d x2d = false /\ beqb d x20 = false /\ beqb d x2a = false /\
+  beqb d x5d = false /\ beqb d x3a = false.
 Proof.
   unfold is_digit. intro H. apply andb_true_iff in H as [H1 H2]. apply Z.leb_le in H1, H2.
-  repeat split; (destruct (beqb d _) eqn:E; [apply beqb_eq in E; subst d; vm_compute in H1; vm_compute in H2; exfalso; (apply H1 || apply H2); reflexivity | reflexivity]).
+  repeat split; (destruct (beqb d _) eqn:E; [apply beqb_eq in E; subst d; vm_compute in H1; vm_compute in H2; exfalso; first [apply H1; reflexivity | apply H2; reflexivity] | reflexivity]).
 Qed.
 
 (* the text of an integer followed by a non-digit: its first byte is neither a quote, a star nor a
@@ -84,12 +87,13 @@ Qed.
 Lemma read_int_fmt i e rest : is_digit e = false ->
   exists q r', format_int i ++ e :: rest = q :: r' /\
     beqb q x20 = false /\ beqb q x2a = false /\ beqb q x27 || beqb q x22 = false /\
-    read_int q r' = Some (i, e :: rest).
+    read_int q r' = Some (i, e :: rest) /\ beqb q x5d = false /\ beqb q x3a = false.
 Proof.
   intro He. unfold format_int. destruct (i <? 0) eqn:En.
   - apply Z.ltb_lt in En. destruct (dec_text (- i) ltac:(lia)) as (d & ds & E & HA & HV). rewrite E.
     pose proof (Forall_inv HA) as Hd. cbn beta in Hd.
     exists x2d, ((d :: ds) ++ e :: rest). split; [reflexivity|]. split; [reflexivity|]. split; [reflexivity|]. split; [reflexivity|].
+    split; [|split; reflexivity].
     unfold read_int. change (beqb x2d x2d) with true. cbn iota. cbn [List.app]. rewrite Hd.
     change (d :: ds ++ e :: rest) with ((d :: ds) ++ e :: rest). rewrite (read_digits_run (d :: ds) 0 e rest HA He).
     fold (digits_val (d :: ds)). rewrite HV. replace (- - i) with i by lia. reflexivity.
@@ -99,8 +103,9 @@ Proof.
       - exists x30, []. split; [reflexivity|]. split; [repeat constructor | reflexivity].
       - apply dec_text. lia. }
     destruct Hfmt as (d & ds & E & HA & HV). rewrite E. pose proof (Forall_inv HA) as Hd. cbn beta in Hd.
-    destruct (is_digit_not_special d Hd) as (N1 & N2 & N3 & N4 & N5).
+    destruct (is_digit_not_special d Hd) as (N1 & N2 & N3 & N4 & N5 & N6 & N7).
     exists d, (ds ++ e :: rest). split; [reflexivity|]. split; [exact N4|]. split; [exact N5|]. split; [rewrite N1, N2; reflexivity|].
+    split; [|split; assumption].
     unfold read_int. rewrite N3. cbn iota. rewrite Hd.
     change (d :: ds ++ e :: rest) with ((d :: ds) ++ e :: rest). rewrite (read_digits_run (d :: ds) 0 e rest HA He).
     fold (digits_val (d :: ds)). rewrite HV. reflexivity.
@@ -110,9 +115,9 @@ Lemma parse_nth f ld i rest :
   parse_frags (S f) ld (print_frag (NNth i) ++ rest) = cons_opt (NNth i) (parse_frags f false rest).
 Proof.
   unfold print_frag. cbn [List.app]. rewrite <- app_assoc. cbn [List.app].
-  destruct (read_int_fmt i x5d rest eq_refl) as (q & r' & E & N1 & N2 & N3 & HR).
+  destruct (read_int_fmt i x5d rest eq_refl) as (q & r' & E & N1 & N2 & N3 & HR & N4 & N5).
   cbn [parse_frags]. change (beqb x5b x2e) with false. change (beqb x5b x2a) with false. change (beqb x5b x5b) with true. cbn iota.
-  rewrite E. cbn [skip_space]. rewrite N1, N2, N3. cbn iota. rewrite HR.
+  rewrite E. cbn [skip_space]. rewrite N1, N5, N2, N3. cbn iota. rewrite HR.
   cbn [skip_space]. change (beqb x5d x20) with false. cbn iota. change (beqb x5d x5d) with true. cbn iota. reflexivity.
 Qed.
 
@@ -130,7 +135,7 @@ Proof.
     rewrite <- app_assoc. cbn [List.app].
     rewrite (string_roundtrip_all s x27 (e :: rest) (or_intror eq_refl)). reflexivity.
   - assert (Hd : is_digit e = false) by (destruct He as [-> | ->]; reflexivity).
-    destruct (read_int_fmt i e rest Hd) as (q & r' & E & N1 & N2 & N3 & HR).
+    destruct (read_int_fmt i e rest Hd) as (q & r' & E & N1 & N2 & N3 & HR & _ & _).
     rewrite E. cbn [skip_space]. rewrite N1, N3. cbn iota. rewrite HR. reflexivity.
 Qed.
 
@@ -176,10 +181,98 @@ Proof.
     rewrite (string_roundtrip_all s x27 (x2c :: tl ++ x5d :: rest) (or_intror eq_refl)).
     cbn [skip_space]. change (beqb x2c x20) with false. cbn iota. change (beqb x2c x5d) with false. change (beqb x2c x2c) with true. cbn iota.
     rewrite Htl. reflexivity.
-  - destruct (read_int_fmt i x2c (tl ++ x5d :: rest) eq_refl) as (q & r' & E & N1 & N2 & N3 & HR).
-    rewrite E. cbn [skip_space]. rewrite N1, N2, N3. cbn iota. rewrite HR.
+  - destruct (read_int_fmt i x2c (tl ++ x5d :: rest) eq_refl) as (q & r' & E & N1 & N2 & N3 & HR & N4 & N5).
+    rewrite E. cbn [skip_space]. rewrite N1, N5, N2, N3. cbn iota. rewrite HR.
     cbn [skip_space]. change (beqb x2c x20) with false. cbn iota. change (beqb x2c x5d) with false. change (beqb x2c x2c) with true. cbn iota.
     rewrite Htl. reflexivity.
+Qed.
+
+(* ---- slices *)
+Lemma read_last_int_fmt c rest :
+  exists d r, format_int c ++ x5d :: rest = d :: r /\ beqb d x5d = false /\ beqb d x20 = false /\ beqb d x3a = false /\
+    read_last_int d r = Some (c, rest).
+Proof.
+  destruct (read_int_fmt c x5d rest eq_refl) as (q & r' & E & N1 & N2 & N3 & HR & N4 & N5).
+  exists q, r'. split; [exact E|]. split; [exact N4|]. split; [exact N1|]. split; [exact N5|].
+  unfold read_last_int. rewrite HR. reflexivity.
+Qed.
+
+Lemma read_slice_end i rest : read_slice i (x5d :: rest) = Some ([i; slice_max_end], rest).
+Proof. reflexivity. Qed.
+
+Lemma read_slice_b i b rest : read_slice i (format_int b ++ x5d :: rest) = Some ([i; b], rest).
+Proof.
+  destruct (read_int_fmt b x5d rest eq_refl) as (q & r' & E & N1 & N2 & N3 & HR & N4 & N5).
+  rewrite E. unfold read_slice. rewrite N4. cbn [skip_space]. rewrite N1, N5. rewrite HR.
+  change (beqb x5d x3a) with false. change (beqb x5d x5d) with true. cbn iota. reflexivity.
+Qed.
+
+Lemma read_slice_c i c rest : read_slice i (x3a :: format_int c ++ x5d :: rest) = Some ([i; slice_max_end; c], rest).
+Proof.
+  destruct (read_last_int_fmt c rest) as (d & r & E & N1 & N2 & N3 & HR).
+  unfold read_slice. change (beqb x3a x5d) with false. cbn iota. cbn [skip_space]. change (beqb x3a x20) with false. cbn iota.
+  change (beqb x3a x3a) with true. cbn iota. rewrite E. rewrite N1. rewrite HR. reflexivity.
+Qed.
+
+Lemma read_slice_bc i b c rest :
+  read_slice i (format_int b ++ x3a :: format_int c ++ x5d :: rest) = Some ([i; b; c], rest).
+Proof.
+  destruct (read_int_fmt b x3a (format_int c ++ x5d :: rest) eq_refl) as (q & r' & E & N1 & N2 & N3 & HR & N4 & N5).
+  destruct (read_last_int_fmt c rest) as (d & r & E2 & M1 & M2 & M3 & HR2).
+  rewrite E. unfold read_slice. rewrite N4. cbn [skip_space]. rewrite N1, N5. rewrite HR.
+  change (beqb x3a x3a) with true. cbn iota. rewrite E2. rewrite M1. rewrite HR2. reflexivity.
+Qed.
+
+(* the text after the first colon, and what it reads as *)
+Definition slice_tail (l : list Z) : bytes :=
+  match l with
+  | [] | [_] => []
+  | [_; b] => print_end b
+  | _ :: b :: c :: _ => print_end b ++ x3a :: format_int c
+  end.
+Definition slice_start (l : list Z) : Z := match l with a :: _ => a | [] => 0 end.
+Definition slice_norm (l : list Z) : list Z :=
+  match l with
+  | [] => [0; slice_max_end]
+  | [a] => [a; slice_max_end]
+  | [a; b] => [a; b]
+  | a :: b :: c :: _ => [a; b; c]
+  end.
+
+Lemma print_slice_split l : print_slice l = print_start (slice_start l) ++ x3a :: slice_tail l.
+Proof. destruct l as [|a [|b [|c l]]]; reflexivity. Qed.
+
+Lemma read_slice_tail l rest : read_slice (slice_start l) (slice_tail l ++ x5d :: rest) = Some (slice_norm l, rest).
+Proof.
+  destruct l as [|a [|b [|c l]]]; cbn [slice_tail slice_start slice_norm List.app].
+  - reflexivity.
+  - reflexivity.
+  - unfold print_end. destruct (b =? slice_max_end) eqn:Eb.
+    + apply Z.eqb_eq in Eb. subst b. reflexivity.
+    + apply read_slice_b.
+  - unfold print_end. destruct (b =? slice_max_end) eqn:Eb.
+    + apply Z.eqb_eq in Eb. subst b. cbn [List.app]. apply read_slice_c.
+    + rewrite <- app_assoc. cbn [List.app]. apply read_slice_bc.
+Qed.
+
+Lemma norm_slice l : norm_frag (NSlice l) = NSlice (slice_norm l).
+Proof. destruct l as [|a [|b [|c l]]]; reflexivity. Qed.
+
+Lemma parse_slice f ld l rest :
+  parse_frags (S f) ld (print_frag (NSlice l) ++ rest) = cons_opt (norm_frag (NSlice l)) (parse_frags f false rest).
+Proof.
+  rewrite norm_slice. unfold print_frag. rewrite print_slice_split.
+  cbn [List.app]. rewrite <- !app_assoc. cbn [List.app].
+  pose proof (read_slice_tail l rest) as HT.
+  cbn [parse_frags]. change (beqb x5b x2e) with false. change (beqb x5b x2a) with false. change (beqb x5b x5b) with true. cbn iota.
+  unfold print_start. destruct (slice_start l =? 0) eqn:E0.
+  - apply Z.eqb_eq in E0. rewrite E0 in HT. cbn [List.app skip_space]. change (beqb x3a x20) with false. cbn iota.
+    change (beqb x3a x3a) with true. cbn iota. rewrite HT. reflexivity.
+  - destruct (read_int_fmt (slice_start l) x3a (slice_tail l ++ x5d :: rest) eq_refl) as (q & r' & E & N1 & N2 & N3 & HR & N4 & N5).
+    rewrite E. cbn [skip_space]. rewrite N1, N5, N2, N3. cbn iota. rewrite HR.
+    cbn [skip_space]. change (beqb x3a x20) with false. cbn iota.
+    change (beqb x3a x5d) with false. change (beqb x3a x2c) with false. change (beqb x3a x3a) with true. cbn iota.
+    rewrite HT. reflexivity.
 Qed.
 
 Lemma tok_byte_not_special c : tok_byte c = true -> beqb c x2a = false /\ beqb c x2e = false /\ beqb c x5b = false.
@@ -192,7 +285,7 @@ Lemma parse_bracket_text f ld k rest :
   cons_opt (NChild (sanitize k)) (parse_frags f false rest).
 Proof.
   cbn [parse_frags]. change (beqb x5b x2e) with false. change (beqb x5b x2a) with false. change (beqb x5b x5b) with true. cbn iota.
-  cbn [skip_space]. change (beqb x27 x20) with false. cbn iota. change (beqb x27 x2a) with false. cbn iota.
+  cbn [skip_space]. change (beqb x27 x20) with false. cbn iota. change (beqb x27 x3a) with false. change (beqb x27 x2a) with false. cbn iota.
   change (beqb x27 x27 || beqb x27 x22) with true. cbn iota.
   rewrite (string_roundtrip_all k x27 (x5d :: rest) (or_intror eq_refl)).
   cbn [skip_space]. change (beqb x5d x20) with false. cbn iota. change (beqb x5d x5d) with true. cbn iota. reflexivity.
@@ -231,7 +324,7 @@ Proof.
   - destruct fuel; [simpl in Hf; lia|]. reflexivity.
   - destruct fuel as [|fuel]; [simpl in Hf; lia|]. simpl in Hf. cbn [map].
     pose proof (Forall_inv Hok) as Hokf. pose proof (Forall_inv_tail Hok) as Hoks.
-    destruct f as [k|i|star| |ms].
+    destruct f as [k|i|star| |ms|l].
     + cbn [print_ld]. destruct (token_ok k) eqn:Ht.
       * assert (Hn : norm_frag (NChild k) = NChild k) by (unfold norm_frag; rewrite Ht; reflexivity). rewrite Hn.
         destruct k as [|c k]; [discriminate Ht|]. unfold token_ok in Ht. cbn [forallb] in Ht.
@@ -247,7 +340,7 @@ Proof.
         { change (beqb x2a x2e) with false. change (beqb x2a x2a) with true. cbn iota. rewrite IH by (assumption || lia). reflexivity. }
         { change (beqb x2e x2e) with true. cbn iota. change (beqb x2a x2a) with true. cbn iota. rewrite IH by (assumption || lia). reflexivity. }
       * cbn [List.app parse_frags]. change (beqb x5b x2e) with false. change (beqb x5b x2a) with false. change (beqb x5b x5b) with true. cbn iota.
-        cbn [skip_space]. change (beqb x2a x20) with false. cbn iota. change (beqb x2a x2a) with true. cbn iota.
+        cbn [skip_space]. change (beqb x2a x20) with false. cbn iota. change (beqb x2a x3a) with false. change (beqb x2a x2a) with true. cbn iota.
         cbn [skip_space]. change (beqb x5d x20) with false. cbn iota. change (beqb x5d x5d) with true. cbn iota.
         rewrite IH by (assumption || lia). reflexivity.
     + cbn [print_ld parse_frags]. change (beqb x2e x2e) with true. cbn iota. change (beqb x2e x2a) with false. cbn iota.
@@ -263,18 +356,20 @@ Proof.
         assert (Hn : norm_frag (NUnion (m1 :: m2 :: ms)) = NUnion (map norm_member (m1 :: m2 :: ms))).
         { destruct m1; reflexivity. }
         rewrite Hn. reflexivity.
+    + cbn [print_ld]. rewrite parse_slice. rewrite IH by (assumption || lia). reflexivity.
 Qed.
 
 Lemma printed_length fs : forall ld, (length fs <= length (print_ld ld fs))%nat.
 Proof.
   induction fs as [|f fs IH]; intro ld; [simpl; lia|].
-  destruct f as [k|i|star| |ms]; cbn [print_ld length]; try rewrite app_length.
+  destruct f as [k|i|star| |ms|l]; cbn [print_ld length]; try rewrite app_length.
   - specialize (IH false). destruct (token_ok k) eqn:Ht.
     + destruct k as [|c k]; [discriminate Ht|]. destruct ld; simpl; lia.
     + unfold print_frag. rewrite Ht. simpl. lia.
   - specialize (IH false). simpl. lia.
   - specialize (IH false). destruct star; [destruct ld|]; simpl; lia.
   - specialize (IH true). lia.
+  - specialize (IH false). simpl. lia.
   - specialize (IH false). simpl. lia.
 Qed.
 
@@ -292,6 +387,7 @@ Definition frag_clean (f : nfrag) : Prop :=
   match f with
   | NChild k => sanitize k = k
   | NUnion ms => (2 <= length ms)%nat /\ Forall member_clean ms
+  | NSlice l => (length l = 2 \/ length l = 3)%nat
   | _ => True
   end.
 Lemma norm_members_clean ms : Forall member_clean ms -> map norm_member ms = ms.
@@ -301,10 +397,11 @@ Proof.
 Qed.
 Lemma norm_clean f : frag_clean f -> norm_frag f = f /\ frag_ok f.
 Proof.
-  destruct f as [k|i|star| |ms]; simpl; try (intros; split; [reflexivity|exact I]).
+  destruct f as [k|i|star| |ms|l]; simpl; try (intros; split; [reflexivity|exact I]).
   - intro H. split; [|exact I]. destruct (token_ok k); [reflexivity | rewrite H; reflexivity].
   - intros [Hl Hm]. destruct ms as [|m1 [|m2 ms]]; try (simpl in Hl; lia). split; [|exact I].
     destruct m1 as [s|i]; cbn [norm_frag]; f_equal; exact (norm_members_clean _ Hm).
+  - intro Hl. split; [|exact I]. destruct l as [|a [|b [|c [|d l]]]]; simpl in Hl; try lia; reflexivity.
 Qed.
 
 Theorem path_text_round_trip_clean fs : Forall frag_clean fs -> parse_path (print_path fs) = Some fs.
